@@ -171,6 +171,22 @@ func errTypeOf(v ssa.Value) string {
 		if g, ok := x.X.(*ssa.Global); ok {
 			return g.Name()
 		}
+	case *ssa.Call:
+		// an error built by a small constructor of the repository: the one type all its returns construct
+		if cf := calleeOf(&x.Call); cf != nil && len(cf.Blocks) > 0 && cf.Signature.Results().Len() == 1 && isErrorType(cf.Signature.Results().At(0).Type()) {
+			t := ""
+			for _, ret := range returnsOf(cf) {
+				rt := errTypeOf(ret.Results[0])
+				if strings.HasPrefix(rt, "?") || rt == "nil" || (t != "" && t != rt) {
+					t = "?"
+					break
+				}
+				t = rt
+			}
+			if t != "" && t != "?" {
+				return t
+			}
+		}
 	}
 	return "?" + v.String()
 }
